@@ -91,6 +91,8 @@ def _isempty_by_cases(ctx, f):
             if tt in ("type(%s).__name__=='Fiber'" % P, "'Fiber'==type(%s).__name__" % P,
                       "isinstance(%s,Fiber)" % P):
                 return is_fiber
+            if tt in ("type(%s).__name__!='Fiber'" % P, "'Fiber'!=type(%s).__name__" % P):
+                return None if is_fiber is None else not is_fiber
             if tt in ("%s==%s" % (P, D), "%s==%s" % (D, P)):
                 return equal
             if tt in ("%s!=%s" % (P, D), "%s!=%s" % (D, P)):
@@ -176,8 +178,44 @@ def r2(ctx):
     # countValues
     f = ctx.method("Fiber", "countValues")
     loops = [n for n in f.own_nodes() if isinstance(n, ast.For)]
-    ok = len(loops) == 1 and iter_kind(ctx, f, loops[0].iter) == (RAW, "self")
-    if ok:
+    sf = pat.sum_form(ctx, f) if not loops else None
+    if sf is not None and isinstance(sf["target"], ast.Name):
+        # `return sum(<per-payload term> for p in self.payloads)`: the term's
+        # alternatives play the part of the guarded `count += ..` statements
+        p = sf["target"].id
+        if iter_kind(ctx, f, sf["iter"]) == (RAW, "self") and \
+                isinstance(sf["start"], ast.Constant) and sf["start"].value == 0:
+            ctx.ok("C12.R2", f, sf["node"], "countValues walks the raw payload list")
+        else:
+            ctx.bad("C12.R2", f, sf["node"], "countValues must walk self.payloads",
+                    text_="countValues loop")
+        fib = {pat.T("recursive"), pat.T("Payload.contains(%s,Fiber)" % p)}
+        notfib = pat.T("recursive and Payload.contains(%s, Fiber)" % p, False)
+        nonempty = pat.T("Payload.isEmpty(%s, default=self.getDefault())" % p, False)
+        rec = leaf = other = 0
+        for g, v in pat.ifexp_alternatives(None, None, sf["elt"]):
+            if isinstance(v, ast.Constant) and v.value == 0:
+                continue
+            if set(g) == fib and text(v).replace(" ", "") in (
+                    "Payload.get(%s).countValues()" % p, "%s.countValues()" % p):
+                rec += 1
+            elif set(g) == {notfib, nonempty} and text(v) == "1":
+                leaf += 1
+            else:
+                other += 1
+        if rec == 1 and leaf == 1 and not other:
+            ctx.ok("C12.R2", f, sf["node"], "recurses into fiber payloads, "
+                   "counts a leaf iff not empty")
+        else:
+            ctx.bad("C12.R2", f, sf["node"], "countValues no longer "
+                    "recurses into fiber payloads and counts a leaf iff it is "
+                    "not empty", text_="countValues body")
+        loops = None
+    ok = loops is not None and len(loops) == 1 and \
+        iter_kind(ctx, f, loops[0].iter) == (RAW, "self")
+    if loops is None:
+        pass
+    elif ok:
         ctx.ok("C12.R2", f, loops[0], "countValues walks the raw payload list")
     else:
         ctx.bad("C12.R2", f, loops[0] if loops else f.node, "countValues must "
@@ -416,10 +454,40 @@ def r3(ctx):
     f = ctx.method("Tensor", "__eq__")
     o = f.params[1]
     rets = pat.returns(f)
+    # case by case on (rank ids equal?, roots equal?): the result is truthy
+    # exactly when both are (sa/symcase.py) -- `a and b`, or guard clauses
+    # that return the failed comparison
+    from .. import symcase
+    Ra = pat.A("==", "self.getRankIds()", "%s.getRankIds()" % o)
+    Fa = pat.A("==", "self.getRoot()", "%s.getRoot()" % o)
+
+    def eq_decider(r_, f_):
+        def decide(t):
+            if isinstance(t, (ast.BoolOp, ast.UnaryOp)):
+                return None
+            a = pat.catom(None, None, t, True, False)
+            if a == Ra:
+                return r_
+            if a == Fa:
+                return f_
+            if a[0] == "!=" and ("==", a[1], a[2]) in (Ra, Fa):
+                return not (r_ if ("==", a[1], a[2]) == Ra else f_)
+            return None
+        return decide
+    good = bool(rets)
     s = pat.inline(ctx, f, rets[0].value, depth=3).replace(" ", "") if rets else ""
-    got = pat.catoms(ctx, f, rets[0].value) if rets else set()
-    if got == {pat.A("==", "self.getRankIds()", "%s.getRankIds()" % o),
-               pat.A("==", "self.getRoot()", "%s.getRoot()" % o)}:
+    for r_ in (True, False):
+        for f_ in (True, False):
+            dec = eq_decider(r_, f_)
+            outs = symcase.Evaluator(ctx, dec).run(f)
+            if not outs or any(o_.opaque or not o_.returned or o_.ret is None or o_.stores
+                               for o_ in outs):
+                good = False
+                continue
+            for o_ in outs:
+                if symcase.simplify(o_.ret, dec) is not (r_ and f_):
+                    good = False
+    if good:
         ctx.ok("C12.R3", f, rets[0], "tensor equality = rank ids equal and roots equal")
     else:
         ctx.bad("C12.R3", f, f.node, "Tensor.__eq__ is no longer `rank ids equal "
